@@ -1,5 +1,6 @@
 (* C16 property theorems: the sheet collection stays consistent over every operation history. *)
 From VF Require Import Base.Prelude Generated.Consts C16.Model C16.Proofs.
+From VF Require Import C16.Names.
 
 Theorem C16_inv : forall ops,
   let wb := wrun ops init_wb in
@@ -27,6 +28,22 @@ Print Assumptions C16_set_sheet_name.
 Theorem C16_set_sheet_visible : forall n v h wb wb', Cons (sheets wb) -> set_sheet_visible n v h wb = Ok wb' -> Cons (sheets wb').
 Proof. exact set_sheet_visible_Cons. Qed.
 Print Assumptions C16_set_sheet_visible.
+
+(* worksheet-scoped defined names: after any history of sheet operations and scoped definitions, the position a name
+   stores as its scope denotes the worksheet (identified by its sheetId, unique in the collection) it was defined
+   for, so GetDefinedName reports that worksheet's current name; names scoped to a deleted worksheet are gone *)
+Theorem C16_scoped_names_follow : forall ops d k, In d (names (wrun ops init_wb)) -> d_scope d = Some k ->
+  exists sh, nth_error (sheets (wrun ops init_wb)) (Z.to_nat k) = Some sh /\ w_id sh = d_home d /\
+             scope_name (wrun ops init_wb) d = Some (w_name sh) /\
+             (forall sh', In sh' (sheets (wrun ops init_wb)) -> w_id sh' = d_home d -> sh' = sh).
+Proof. exact scoped_names_follow. Qed.
+Print Assumptions C16_scoped_names_follow.
+
+Example C16_names_ex :
+  let wb := wrun [WNew [83;50]; WNew [83;51]; WSetName [97] [83;50] [120]; WSetName [98] [83;51] [121]; WMove [83;51] [83;104;101;101;116;49];
+                  WDelete [83;50]; WRename [83;51] [84]] init_wb in
+  map (fun d => (d_name d, scope_name wb d)) (names wb) = [([98], Some [84])].
+Proof. vm_compute. reflexivity. Qed.
 
 (* non-vacuity: hide / delete attempts on the last visible sheet are refused *)
 Example C16_ex :
